@@ -308,6 +308,16 @@ def _check_directory_structure_validity(paths):
 
     """
     paths = list(paths)
+    for dst in paths:
+        normalized = os.path.normpath(dst)
+        if os.path.isabs(normalized) or normalized.split(os.path.sep)[0] == os.pardir:
+            raise RuntimeError(
+                f"The path '{dst}' points outside of the target directory."
+            )
+        if normalized == os.curdir and len(paths) > 1:
+            raise RuntimeError(
+                f"The path '{dst}' is both a leaf and node in the path structure."
+            )
     check = set()
     for dst in paths:
         tokens = dst.split(os.path.sep)
